@@ -233,4 +233,11 @@ let () =
                 check 0 groups runs
               end in
         Mlutil.print_model model_outs verdict
+    | "stress", _ ->
+        (* real interleavings: the driver checked the property on the replies itself *)
+        let verdict = match outs with
+          | ["ok"] -> "ok"
+          | o :: _ -> "fail:stress-" ^ o
+          | [] -> "fail:stress-no-answer" in
+        Mlutil.print_model ["ok"] verdict
     | _ -> Mlutil.print_model ["UNKNOWN-KIND"] "ok")
